@@ -307,6 +307,10 @@ func (p *Parser) ExpectToken(t token.Type) bool {
 func (p *Parser) ExpectSemicolonASI() bool {
 	if p.PeekToken.Type == token.SEMICOLON {
 		p.NextToken()
+		// comments in front of the ';' stay in the program: they now lead the token behind it
+		if comments := p.CurrentToken.LeadingComments; len(comments) > 0 {
+			p.PeekToken.LeadingComments = append(append([]string(nil), comments...), p.PeekToken.LeadingComments...)
+		}
 		return true
 	}
 	if p.shouldInsertSemicolon() {
